@@ -131,3 +131,33 @@ func HC06SR() {
 	vr.Cover("delay")
 	vr.Assert(d == 0 || d == 1 || d == 0xFFFFFFFF, "DLSR = elapsed since the latest SR in 1/65536 s (within one unit)")
 }
+
+// HC06LossStep: from an ARBITRARY history bitmap (stale bits of earlier cycles included) right after
+// a report, one packet that jumps forward by d (any base incl. the 16-bit wrap): the next report
+// counts exactly the d-1 skipped numbers as lost.
+func HC06LossStep() {
+	s := c06stream(1)
+	s.packets[0] = vr.NondetU64()
+	s.started = true
+	s.lastSeqnum = vr.NondetU16()
+	s.lastReportSeqnum = s.lastSeqnum
+	s.seqnumCycles = uint16(vr.NondetInt(0, 3))
+	cyc0 := s.seqnumCycles
+	tl0 := uint32(vr.NondetInt(0, 1000))
+	s.totalLost = tl0
+	s.setReceived(s.lastSeqnum)
+	d := uint16(vr.NondetInt(1, vr.Param("maxjump", 6)))
+	seq := s.lastSeqnum + d
+	last := s.lastSeqnum
+	s.processRTP(c07epoch, &rtp.Header{SequenceNumber: seq, Timestamp: 1})
+	r := s.generateReport(c07epoch)
+	rr := r.Reports[0]
+	if seq < last {
+		vr.Cover("jump across the sequence wrap")
+		vr.Assert(rr.LastSequenceNumber == uint32(cyc0+1)<<16|uint32(seq), "cycle count incremented at the wrap")
+	} else {
+		vr.Assert(rr.LastSequenceNumber == uint32(cyc0)<<16|uint32(seq), "extended highest sequence number")
+	}
+	vr.Assert(rr.TotalLost == tl0+uint32(d-1), "skipped numbers counted lost whatever the bitmap held before")
+	vr.Assert(uint32(rr.FractionLost) == uint32(d-1)*256/uint32(d), "fraction lost = floor(256*lost/expected)")
+}
